@@ -88,6 +88,41 @@ CLAIMED = {
    note="trusted: driver-side equality with the fresh object's result; representation projection reads one private attribute (skipped if unobservable)",
    technique="TLA+ spec GBObject model-checked with TLC, state graph replayed transition by transition into the real object, histories trace-validated",
    ref="DESIGN.md section 6/C13"),
+ "C14": dict(
+   text="TLC checks that re-aggregating per-group partials over the other key levels equals aggregating the summarised rows directly "
+        "(GBMargins: sum/count/size add, min/max are extremes, mean = total sum / total count; the mean-of-means machine is the negative "
+        "configuration) for every table within the bounds; every recorded real GroupBy.<op>(margins=...) result and crosstab(...) table "
+        "(all 1-key inputs up to 3/4 rows, 2-3 key draws, every subset of margin levels, masks) is validated cell by cell by TLC against "
+        "the aggregate computed by the spec from the input rows.",
+   note="trusted: projection of result tables to (label tuple -> exact rational) cells (gbverif/drivers/margins.py); cells of empty selections are not judged (the property does not state them)",
+   technique="TLA+ spec GBMargins model-checked with TLC + trace validation (Trace_GBMargins) of real margins / crosstab results",
+   ref="DESIGN.md section 6/C14"),
+ "C17": dict(
+   text="The facade's result, the core engine's result on the selected value columns and pandas' result are projected to the same trace "
+        "formats and validated by TLC against the same model-checked machines (GBCore for aggregations, GBCumulative, GBRolling, the "
+        "partition relation of GBFactorize for iteration) plus Trace_GBFacade (which columns appear in the result); inputs: every key "
+        "column up to 3/4 rows x by column(s)/array/level/mixture x 5 index kinds x [] selection x 10 aggregations, 4 cumulative, 4 rolling "
+        "methods and iteration.",
+   note="trusted: projections in gbverif/drivers/facade.py; pandas is only a second implementation fed to the same spec, never the oracle",
+   technique="TLA+ specs GBCore/GBCumulative/GBRolling/GBFactorize model-checked with TLC + trace validation of facade, core and pandas runs against the same specs",
+   ref="DESIGN.md section 6/C17"),
+ "C18": dict(
+   text="TLC checks the validation pipeline model (GBValidate: length check, index identity check, conversion, kernel guard as separate "
+        "actions; configurations without the length / index check are the negative runs) for MisalignedRejected and AlignedAccepted; the "
+        "whole domain of (public operation x array argument x length delta -2..+2 x index relation identical/permuted/shifted/duplicated/"
+        "absent) is executed on the real code and each outcome (return / exception) is validated by TLC against the pipeline.",
+   note="trusted: the classification of an outcome as return/raise; the domain is finite and executed completely",
+   technique="TLA+ spec GBValidate model-checked with TLC + trace validation (Trace_GBValidate) of every (operation, argument, misalignment) outcome",
+   ref="DESIGN.md section 6/C18"),
+ "C20": dict(
+   text="TLC checks the chunked reduce machine (GBNanops: per-thread block partials, null skipping, reduce of block results; an empty "
+        "block that contributes garbage is the negative configuration) against the NaN-aware definition for all arrays within the bounds "
+        "and all thread counts; every recorded nan*/count call (all arrays up to length 5/7 over {nan,1,2,3} x 1..8 threads, float and "
+        "integer dtypes, 2-D by axis), nb_dot, bools_to_categorical and pretty_cut call is validated by TLC (exact rationals; printed bin "
+        "bounds parsed back and checked to contain the value).",
+   note="trusted: rational recovery, parsing of printed bin labels; var/std rounding judged with a 1e-9 relative bound harness-side before rational recovery",
+   technique="TLA+ spec GBNanops model-checked with TLC + trace validation (Trace_GBHelpers) of real helper calls",
+   ref="DESIGN.md section 6/C20"),
 }
 REASONS = {}
 props = [json.loads(l) for l in open("/verif/properties.jsonl")]
